@@ -176,7 +176,15 @@ func (tx *Tx) SMoveByOneBucket(bucket string, key1, key2, item []byte) (bool, er
 	}
 
 	if set, ok := tx.db.SetIdx[bucket]; ok {
-		return set.SMove(string(key1), string(key2), item)
+		if !set.SHasKey(string(key1)) {
+			return false, ErrNotFoundKeyInBucket(bucket, key1)
+		}
+
+		if !set.SHasKey(string(key2)) {
+			return false, ErrNotFoundKeyInBucket(bucket, key2)
+		}
+
+		return tx.sMove(bucket, key1, bucket, key2, item)
 	}
 
 	return false, ErrBucket
@@ -209,11 +217,21 @@ func (tx *Tx) SMoveByTwoBuckets(bucket1 string, key1 []byte, bucket2 string, key
 		return false, ErrNotFoundKeyInBucket(bucket2, key2)
 	}
 
-	if _, ok := set2.M[string(key2)][string(item)]; !ok {
-		set2.SAdd(string(key2), item)
+	return tx.sMove(bucket1, key1, bucket2, key2, item)
+}
+
+// sMove logs the move as a removal from the source followed by an addition to
+// the destination, so that it is applied at Commit, discarded by Rollback,
+// refused in a read-only transaction and replayed when the DB is reopened,
+// like every other write.
+func (tx *Tx) sMove(bucket1 string, key1 []byte, bucket2 string, key2, item []byte) (bool, error) {
+	if err := tx.sPut(bucket1, key1, DataDeleteFlag, item); err != nil {
+		return false, err
 	}
 
-	set1.SRem(string(key1), item)
+	if err := tx.sPut(bucket2, key2, DataSetFlag, item); err != nil {
+		return false, err
+	}
 
 	return true, nil
 }
